@@ -382,6 +382,8 @@ class kwargs_support(wrapper):
         return getargs(self.function)
         
     def wrapped(self, *args, **kwargs):
+        if getargspec(self.function).varkw is not None: ## the function declares **kwargs itself, nothing to filter
+            return self.function(*args, **kwargs)
         _args = self._args
         kwargs = {key : value for key, value in kwargs.items() if key in _args}
         return self.function(*args, **kwargs)
